@@ -6,6 +6,8 @@ pub mod rec_hasher;
 pub mod rope;
 pub mod tree;
 pub mod hist;
+pub mod json;
+pub mod sched;
 
 pub fn unhex(h: &str) -> Vec<u8> {
   if h == "." {
@@ -133,6 +135,23 @@ pub fn fmt_mlist(ms: &[Mapping]) -> String {
   ms.iter().map(fmt_mapping).collect::<Vec<_>>().join(";")
 }
 
+pub static LAST_PANIC_LOCATION: std::sync::Mutex<String> = std::sync::Mutex::new(String::new());
+
+/// Installs a silent panic hook that remembers where the last panic happened.
+pub fn install_panic_hook() {
+  std::panic::set_hook(Box::new(|info| {
+    if let Some(l) = info.location() {
+      if let Ok(mut g) = LAST_PANIC_LOCATION.lock() {
+        *g = format!("{}:{}", l.file(), l.line());
+      }
+    }
+  }));
+}
+
+pub fn last_panic_location() -> String {
+  LAST_PANIC_LOCATION.lock().map(|g| g.clone()).unwrap_or_default()
+}
+
 /// Runs `f`, turning a panic into an observation `PANIC=<hex message>`.
 pub fn guarded<F: FnOnce() -> String + std::panic::UnwindSafe>(f: F) -> String {
   match std::panic::catch_unwind(f) {
@@ -145,7 +164,7 @@ pub fn guarded<F: FnOnce() -> String + std::panic::UnwindSafe>(f: F) -> String {
       } else {
         "panic".to_string()
       };
-      format!("PANIC={}", hex(msg.as_bytes()))
+      format!("PANIC={}", hex(format!("{} @ {}", msg, last_panic_location()).as_bytes()))
     }
   }
 }
